@@ -14,6 +14,7 @@ import (
 	"math/rand"
 	"os"
 	"sort"
+	"sync/atomic"
 	"time"
 )
 
@@ -147,13 +148,42 @@ func mark(desc string) {
 	if markFile != "" {
 		_ = os.WriteFile(markFile, []byte(desc), 0o644)
 	}
+	markedDesc.Store(desc)
+	markedAt.Store(time.Now().UnixNano())
 }
 
 // unmark: the call into the real code has returned; whatever kills the process from here on is the harness's own doing
 func unmark() {
+	markedAt.Store(0)
 	if markFile != "" {
 		_ = os.Remove(markFile)
 	}
+}
+
+var (
+	markedAt   atomic.Int64 // when the marked case was handed to the real code; 0: nothing is running there
+	markedDesc atomic.Value
+)
+
+// watchdog: a call into the real code that does not come back within the limit (a deadlock, an endless loop) would stall the whole check;
+// the marker is completed with what happened and the process ends, bin/check reports the marked case as the failing input
+func watchdog(limit time.Duration) {
+	go func() {
+		for {
+			time.Sleep(time.Second)
+			t := markedAt.Load()
+			if t == 0 || time.Since(time.Unix(0, t)) < limit {
+				continue
+			}
+			desc, _ := markedDesc.Load().(string)
+			msg := desc + " | did not return within " + limit.String() + " (harness watchdog)"
+			if markFile != "" {
+				_ = os.WriteFile(markFile, []byte(msg), 0o644)
+			}
+			fmt.Fprintln(os.Stderr, "watchdog: "+msg)
+			os.Exit(3)
+		}
+	}()
 }
 
 func main() {
@@ -183,6 +213,11 @@ func main() {
 	log.SetOutput(io.Discard) // the code under test logs warnings per polygon
 	if *out != "" {
 		markFile = *out + ".current"
+		limit := 90 * time.Second
+		if *tier == "thorough" {
+			limit = 10 * time.Minute
+		}
+		watchdog(limit)
 		_ = os.Remove(markFile)
 	}
 	start := time.Now()
